@@ -112,6 +112,8 @@ def extract(g, X):
     def resolve_first():
         b = X.fn_body(file_rs, "resolve_ref")
         m = re.search(r"match\s+self\.changes\.get\(&r\.id\)\s*\{\s*Some\(\(p,\s*_\)\)\s*=>\s*Ok\(\(\*p\)\.clone\(\)\)", b)
-        off = re.search(r"self\.start_offset\s*\+\s*pos\s*\.\.", b)
+        # the object is read at header position + table offset (plain or checked addition)
+        off = re.search(r"self\.start_offset\s*\+\s*pos\s*\.\.", b) or \
+            (re.search(r"let\s+pos\s*=\s*t!\(self\.start_offset\.checked_add\(pos\)", b) and re.search(r"self\.backend\.read\(pos\s*\.\.\)", b))
         return "1" if m and off else "0"
     g.attempt([("sto_resolve_changes_first", "N")], "file.rs:resolve_ref", resolve_first)
